@@ -219,10 +219,11 @@ pub fn gen_world(rng: &mut Rng, prop: &str) -> WorldCfg {
             q += rng.below128(d);
         }
         let spot = mul_div(q, d, b).unwrap_or(d);
-        let toll = ratio_choice(rng, d, &[(0, 10), (1, 1), (10, 2), (100, 3), (1000, 3), (10000, 1)]);
-        let spread = ratio_choice(rng, d, &[(0, 10), (1, 1), (10, 2), (100, 3), (1000, 3), (10000, 1)]);
+        // (not only ratios of the form 1/n: 0.37 %, 7.77 %, 43.21 %, and limits such as 7.8 %, 35.9 %, 56.24 %)
+        let toll = ratio_choice(rng, d, &[(0, 10), (1, 1), (10, 2), (100, 3), (1000, 3), (10000, 1), (37, 1), (777, 1), (4321, 1)]);
+        let spread = ratio_choice(rng, d, &[(0, 10), (1, 1), (10, 2), (100, 3), (1000, 3), (10000, 1), (37, 1), (777, 1), (4321, 1)]);
         let fluct = if want_fluct {
-            ratio_choice(rng, d, &[(50, 2), (100, 3), (500, 4), (2000, 2), (10000, 1)])
+            ratio_choice(rng, d, &[(50, 2), (100, 3), (500, 4), (2000, 2), (10000, 1), (780, 1), (3590, 1), (5624, 1), (137, 1)])
         } else {
             0
         };
